@@ -91,7 +91,7 @@ pub fn sweep_archive(sw: &Sweep, rep: &mut Report, model: &mut Model, cfg: &Cfg,
                             rep.traces_validated += 1;
                             match pred {
                                 Ok(m) => {
-                                    if let Some(d) = same_recovery(&rec, &m) {
+                                    if let Some(d) = same_recovery_l(&rec, &m, cfg.layers & L_COMP != 0) {
                                         rep.violation("corr", &format!("corr:{}/repair.run", sw.prop), json!({}),
                                             &format!("model and implementation disagree on the repair of a {n}-byte prefix: {d}"), cut_case_b(cfg, ops, b, n, auth));
                                         return false;
@@ -196,7 +196,7 @@ pub fn run_sweep(ctx: &Ctx, sw: &Sweep) -> Report {
             if rep.full() { return rep; }
         }
     }
-    rep.assumptions.push("with compression the model gives no exact prediction (brotli is a parameter of the model): the oracle alone decides there".into());
+    rep.assumptions.push("with compression the model's codec is a table of the brotli crate's own answers on the very bytes of the case (reference streaming decode), the layer and repair logic are the model's".into());
     rep
 }
 
